@@ -28,7 +28,7 @@ InitCapW == IF Cap \div 100 < 1 THEN 1 ELSE Cap \div 100
 InitCapT == ((Cap - InitCapW) * 8) \div 10
 
 Init0 == [win |-> <<>>, pb |-> <<>>, pt |-> <<>>, lenW |-> 0, lenB |-> 0, lenT |-> 0, cntW |-> 0, cntB |-> 0, cntT |-> 0,
-          capW |-> InitCapW, capT |-> InitCapT, ws |-> 0, amt |-> 0, pw |-> [e \in Ids |-> 0], ev |-> <<>>, ok |-> TRUE]
+          capW |-> InitCapW, capT |-> InitCapT, ws |-> 0, amt |-> 0, pw |-> [e \in Ids |-> 0], ev |-> <<>>, adm |-> <<>>, ok |-> TRUE]
 
 Over(s) == IF SignedCmp THEN s.ws > Cap ELSE (s.ws < 0 \/ s.ws > Cap)
 
@@ -95,11 +95,12 @@ EvMain(s, cand, vict, vq, cq, ch, fuel) ==
   THEN EvMain(PolRemove(s, c1, TRUE), PrevOf(s, c1), vict, vq, q1, ch, fuel - 1)
   ELSE LET adm == IF ch = <<>> THEN FALSE ELSE Head(ch)
            rest == IF ch = <<>> THEN <<>> ELSE Tail(ch)
+           sa == [s EXCEPT !.adm = Append(@, <<c1, vict, adm>>)]     \* the decision taken, for configurations with exact frequencies
        IN IF adm
           THEN \* victim evicted; the candidate stays and the walk moves on (prev taken after the removal)
-               LET s2 == PolRemove(s, vict, TRUE) IN
+               LET s2 == PolRemove(sa, vict, TRUE) IN
                EvMain(s2, PrevOf(s2, c1), PrevOf(s, vict), vq, q1, rest, fuel - 1)
-          ELSE EvMain(PolRemove(s, c1, TRUE), PrevOf(s, c1), vict, vq, q1, rest, fuel - 1)
+          ELSE EvMain(PolRemove(sa, c1, TRUE), PrevOf(s, c1), vict, vq, q1, rest, fuel - 1)
 
 \* EvictEntries()
 Evict(s, ch) == LET r == EvWin(s, Nil) IN EvMain(r[1], r[2], Back(r[1].pb), "B", "B", ch, 4 * N + 8)
@@ -124,21 +125,21 @@ DecWin(s, a) ==
 
 Resize(s0, amount) ==
   LET a == Clamp(s0, amount)
-      s1 == Demote([s0 EXCEPT !.capW = @ + a, !.capT = @ - a, !.amt = a, !.ev = <<>>])
+      s1 == Demote([s0 EXCEPT !.capW = @ + a, !.capT = @ - a, !.amt = a, !.ev = <<>>, !.adm = <<>>])
       r == IF a > 0 THEN IncWin(s1, a) ELSE IF a < 0 THEN DecWin(s1, -a) ELSE <<s1, 0>>
       remain == IF a > 0 THEN r[2] ELSE IF a < 0 THEN -r[2] ELSE a
   IN [r[1] EXCEPT !.amt = remain, !.capW = @ - remain, !.capT = @ + remain]
 
 \* TinyLfu.Set(entry) for an entry whose policyWeight is w (sinkWrite NEW sets it before the call)
 PSet(s0, e, w, ch) ==
-  LET s1 == [s0 EXCEPT !.pw[e] = w, !.ev = <<>>]
+  LET s1 == [s0 EXCEPT !.pw[e] = w, !.ev = <<>>, !.adm = <<>>]
       s2 == [s1 EXCEPT !.ws = @ + w]
       s3 == IF Region(s2, e) = "none" THEN PushFrontW(s2, e) ELSE s2
   IN Evict(Demote(s3), ch)
 
 \* TinyLfu.Access(item)
 PAccess(s0, e) ==
-  LET s == [s0 EXCEPT !.ev = <<>>] IN
+  LET s == [s0 EXCEPT !.ev = <<>>, !.adm = <<>>] IN
   CASE Region(s, e) = "W" -> [s EXCEPT !.win = MoveFront(s.win, e)]
     [] Region(s, e) = "B" -> PushFrontT(RemB(s, e), e)
     [] Region(s, e) = "T" -> [s EXCEPT !.pt = MoveFront(s.pt, e)]
@@ -146,7 +147,7 @@ PAccess(s0, e) ==
 
 \* sinkWrite UPDATE on a tracked entry: policyWeight += d, then TinyLfu.UpdateCost(entry, d)
 PUpdate(s0, e, d, ch) ==
-  LET s1 == [s0 EXCEPT !.pw[e] = @ + d, !.ws = @ + d, !.ev = <<>>]
+  LET s1 == [s0 EXCEPT !.pw[e] = @ + d, !.ws = @ + d, !.ev = <<>>, !.adm = <<>>]
       rg == Region(s1, e)
       s2 == CASE rg = "W" -> [s1 EXCEPT !.lenW = @ + d] [] rg = "B" -> [s1 EXCEPT !.lenB = @ + d]
               [] rg = "T" -> [s1 EXCEPT !.lenT = @ + d] [] OTHER -> s1
@@ -157,7 +158,7 @@ PUpdate(s0, e, d, ch) ==
                    [] OTHER -> s2
   IN IF Over(s3) THEN Evict(s3, ch) ELSE s3
 
-PRemove(s0, e) == PolRemove([s0 EXCEPT !.ev = <<>>], e, FALSE)
+PRemove(s0, e) == PolRemove([s0 EXCEPT !.ev = <<>>, !.adm = <<>>], e, FALSE)
 
 -----------------------------------------------------------------------------
 (* C07 invariants of a policy state *)
